@@ -429,6 +429,9 @@ func (s *runtimeState) resolveIngress(r *http.Request, requestPath string) (stri
 	}
 
 	for _, rt := range s.routes {
+		if !routeServesIngress(rt) {
+			continue
+		}
 		if !router.MatchPath(requestPath, rt.Path) {
 			continue
 		}
@@ -452,6 +455,16 @@ func (s *runtimeState) resolveIngress(r *http.Request, requestPath string) (stri
 	return "", false
 }
 
+// routeServesIngress reports whether the ingress listener may hand requests to
+// the route: outbound and internal channel routes receive no ingress traffic.
+func routeServesIngress(rt config.CompiledRoute) bool {
+	switch rt.ChannelType {
+	case config.ChannelOutbound, config.ChannelInternal:
+		return false
+	}
+	return true
+}
+
 func (s *runtimeState) allowedMethodsFor(r *http.Request, requestPath string) []string {
 	if r == nil {
 		return nil
@@ -468,6 +481,9 @@ func (s *runtimeState) allowedMethodsFor(r *http.Request, requestPath string) []
 	var out []string
 
 	for _, rt := range s.routes {
+		if !routeServesIngress(rt) {
+			continue
+		}
 		if !router.MatchPath(requestPath, rt.Path) {
 			continue
 		}
